@@ -72,6 +72,7 @@ PROP_MODELS = {
     'C02': ['mutableseq'],
     'C17': ['trig', 'numpy.small', 'mutableseq'],
     'C04': ['trig', 'sqrt'],
+    'C20': ['sqrt'],
     'C08': ['sqrt', 'numpy.poly1d', 'numpy.roots', 'mutableseq'],
     'C14': ['numpy.poly1d', 'numpy.small', 'mutableseq'],
     'C09': ['mutableseq'],
